@@ -29,18 +29,8 @@ def prepare(w):
                 src = rules.load_source(f, i.get("fptr"))
                 if src and src[0] == "global":
                     tus.add(f.relfile)
-    done = {}
-    for f in list(P.repo_functions()):
-        if f.relfile not in tus:
-            continue
-        def pred(g, f=f):
-            if not g.internal or g.relfile != f.relfile:
-                return False
-            cs = P.callers().get(g.name, [])
-            return bool(cs) and all(cf.name == f.name for cf, ci in cs) and g.name not in P.addr_taken()
-        got = inline.inline_helpers(P, f.name, pred)
-        if got:
-            done[f.name] = got
+    # helpers whose call sites all lie in one function of the sender unit (any number of sites), bottom-up; emptied helpers are dropped
+    done = inline.normalise(P, max_sites=12, max_size=500, only_files=tus, one_caller=True)
     w._c01_prepared = True
     w._c01_inlined = done
     return done
@@ -98,6 +88,15 @@ def send_roles(w):
         if i.op == "store" and i["ptr"].get("k") == "global" and rules.const_of(fl, i["val"]) == 0:
             idx.add(i["ptr"]["name"])
     roles["fill_index"] = idx
+    # capacity: the other internal integer global that the append routine compares the fill level with
+    cap = set()
+    for (f, mc) in append:
+        for l in f.all_insts():
+            if l.op == "load" and l["ptr"].get("k") == "global":
+                g = P.globals.get(l["ptr"]["name"])
+                if g and g.get("internal") and not g["type"].startswith("[") and g["type"].startswith("i") and l["ptr"]["name"] not in idx and "pthread" not in g["type"]:
+                    cap.add(l["ptr"]["name"])
+    roles["capacity"] = cap
     return roles
 
 
@@ -122,7 +121,7 @@ def run(chk, w):
     chk.rule("C01-ACC", "batch buffer, staging buffer, fill index, capacity and the write callback are only touched with bidib_send_buffer_mutex held")
     db = access.AccessDB(w)
     regs = set(roles["staging"]) | set(roles["batch"]) | set(roles["fill_index"])
-    caps = [g for g in P.globals if g.split(".u")[0] == "pkt_max_cap"]
+    caps = sorted(roles["capacity"])
     regs |= set(caps)
     n = 0
     for r in sorted(regs):
@@ -349,8 +348,35 @@ def run(chk, w):
                         else:
                             chk.violation("C01-CAP", f.name, "capacity", i.loc(), "packet capacity set to %d (< 64)" % c)
                     else:
-                        # announced value: must be on the edge excluding <= 64
+                        # announced value: must be on the edge excluding <= 64 (for `cap = (v <= 64) ? 64 : v` the test guards the phi's incoming block)
                         good = False
+                        points = [i]
+                        vphi = f.resolve(rules.strip_casts(f, i["val"]))
+                        if vphi is not None and vphi.op == "phi":
+                            points = []
+                            allc = True
+                            for pb, pv in vphi["incoming"]:
+                                cc = rules.const_of(f, pv)
+                                if cc is not None:
+                                    if cc < 64:
+                                        allc = False
+                                else:
+                                    points.append(f.bmap[pb].term)
+                            if not allc:
+                                points = [i]
+                        goods = []
+                        for pt in points:
+                            g1 = False
+                            for (gd, truth) in rules.branch_conditions(f, pt):
+                                cnd = f.resolve(gd["cond"])
+                                if cnd is not None and cnd.op == "icmp":
+                                    cv = rules.const_of(f, cnd["b"])
+                                    if cv is not None and ((cnd["pred"] in ("sle", "ule") and not truth and cv >= 63) or (cnd["pred"] in ("sgt", "ugt") and truth and cv >= 63) or
+                                                           (cnd["pred"] in ("slt", "ult") and not truth and cv >= 64) or (cnd["pred"] in ("sge", "uge") and truth and cv >= 64)):
+                                        g1 = True
+                            goods.append(g1)
+                        if points and all(goods) and points != [i]:
+                            good = True
                         for (gd, truth) in rules.branch_conditions(f, i):
                             cnd = f.resolve(gd["cond"])
                             if cnd is not None and cnd.op == "icmp":
